@@ -1,5 +1,6 @@
 #include "rdl_theory.h"
 #include "rdl_value_listener.h"
+#include "verif_hooks.h"
 #include <algorithm>
 #include <stdexcept>
 #include <cassert>
@@ -41,6 +42,7 @@ namespace smt
 
     SMT_EXPORT lit rdl_theory::new_distance(const var &from, const var &to, const inf_rational &dist) noexcept
     {
+        ORATIO_VERIF_WRAP(new_distance(from, to, dist), def_dist(this, true, from, to, inf_rational(dist), vr_));
         if (_dists[to][from] < -dist)
             return FALSE_lit; // the constraint is inconsistent..
         else if (_dists[from][to] <= dist)
@@ -59,6 +61,7 @@ namespace smt
 
     SMT_EXPORT lit rdl_theory::new_lt(const lin &left, const lin &right)
     {
+        ORATIO_VERIF_WRAP(new_lt(left, right), def_dl(this, true, "lt", left, right, vr_));
         lin expr = left - right;
         switch (expr.vars.size())
         {
@@ -105,6 +108,7 @@ namespace smt
 
     SMT_EXPORT lit rdl_theory::new_leq(const lin &left, const lin &right)
     {
+        ORATIO_VERIF_WRAP(new_leq(left, right), def_dl(this, true, "leq", left, right, vr_));
         lin expr = left - right;
         switch (expr.vars.size())
         {
@@ -151,6 +155,7 @@ namespace smt
 
     SMT_EXPORT lit rdl_theory::new_eq(const lin &left, const lin &right)
     {
+        ORATIO_VERIF_WRAP(new_eq(left, right), def_dl(this, true, "eq", left, right, vr_));
         lin expr = left - right;
         switch (expr.vars.size())
         {
@@ -187,6 +192,7 @@ namespace smt
 
     SMT_EXPORT lit rdl_theory::new_geq(const lin &left, const lin &right)
     {
+        ORATIO_VERIF_WRAP(new_geq(left, right), def_dl(this, true, "geq", left, right, vr_));
         lin expr = left - right;
         switch (expr.vars.size())
         {
@@ -235,6 +241,7 @@ namespace smt
 
     SMT_EXPORT lit rdl_theory::new_gt(const lin &left, const lin &right)
     {
+        ORATIO_VERIF_WRAP(new_gt(left, right), def_dl(this, true, "gt", left, right, vr_));
         lin expr = left - right;
         switch (expr.vars.size())
         {
